@@ -67,7 +67,6 @@ type execution struct {
 	faultsFired    int
 	flushCalls     int
 	flushFailed    bool
-	acWritten      bool
 	acAttempts     int
 	batchPutErrors int
 	runnerRan      bool
@@ -133,7 +132,30 @@ func newExecution(w *world, id int, p plan) *execution {
 	wl := w.wl
 	x := &execution{w: w, id: id, plan: p, pool: &memPool{}}
 	x.df = digest.MustNewFunction(wl.instance, remoteexecution.DigestFunction_SHA256)
-	x.store = newStore(x)
+	x.store = newStore(w.k, x.df)
+	switch p.mode {
+	case planSingle:
+		x.store.single = func(idx int, r *request) int {
+			if idx == p.pos {
+				return p.kind
+			}
+			return fNone
+		}
+	case planRandom:
+		x.store.randomRate = p.rate
+		x.store.randomKinds = []int{fErrBefore, fErrAfter, fCancelBefore, fCancelAfter, fCancelLater}
+	}
+	x.store.errOnPutOK = x.uploadSemaphoreFree
+	x.store.cancel = func(*request) { x.cancel() }
+	x.store.onACWrite = x.checkACWrite
+	x.store.onCall = func(rec callRecord) {
+		if rec.fault != fNone {
+			x.faultsFired++
+		}
+		if rec.err != nil {
+			x.failures = append(x.failures, rec)
+		}
+	}
 	x.clock = simenv.NewSimClock(w.k, startTime)
 	x.ctx, x.cancel = context.WithCancel(context.Background())
 
@@ -186,7 +208,7 @@ func newExecution(w *world, id int, p plan) *execution {
 func (x *execution) build() {
 	wl := x.w.wl
 	globalCAS := &fakeCAS{s: x.store}
-	actionCache := &fakeAC{x.store}
+	actionCache := &fakeAC{s: x.store}
 
 	// Upload concurrency. BatchedStoreBlobAccess hands the Puts of one flush
 	// to errgroup goroutines; a dispatcher goroutine acquires the semaphore
@@ -465,7 +487,7 @@ func (x *execution) finalChecks() {
 		return
 	}
 	ok := status.ErrorProto(resp.Status) == nil
-	k.Annotate("execution %d finished: %s; failures=%d flushFailed=%v acWritten=%v", x.id, describeResponse(resp, nil), len(x.failures), x.flushFailed, x.acWritten)
+	k.Annotate("execution %d finished: %s; failures=%d flushFailed=%v acWritten=%v", x.id, describeResponse(resp, nil), len(x.failures), x.flushFailed, (x.store.acWrites > 0))
 	x.w.r.Logf("x%d %s -> %s failures=%d flush_failed=%v ac_entry=%v calls=%d", x.id, x.plan, describeResponse(resp, nil), len(x.failures), x.flushFailed, len(x.store.ac) > 0, len(x.store.calls))
 
 	// A failed storage call must surface in the response.
@@ -573,7 +595,7 @@ func (x *execution) finalChecks() {
 	if x.batchPutErrors > 0 {
 		k.Probe("batched-put-returned-error")
 	}
-	if x.acWritten {
+	if x.store.acWrites > 0 {
 		k.Probe("ac-written")
 	}
 	if x.store.maxPending >= 2 {
@@ -581,7 +603,7 @@ func (x *execution) finalChecks() {
 	}
 	if x.plan.mode == planNone {
 		k.Probe("fault-free-execution")
-		if x.acWritten {
+		if x.store.acWrites > 0 {
 			k.Probe("fault-free-execution-cached")
 		}
 	}
